@@ -349,6 +349,35 @@ func C14(tier string) int {
 			}
 		}
 		rec(nil)
+		// long registration lists: 5, 8, 16, 17 and 33 callbacks for OTHER types (cycling through the
+		// alphabet's foreign entries and further types) in front of / around the own-type callbacks
+		var others []string
+		for _, a := range alpha[3:] {
+			others = append(others, a.key)
+		}
+		for _, k := range keys {
+			if k != v && len(others) < 40 {
+				dup := false
+				for _, x := range others {
+					if x == k {
+						dup = true
+					}
+				}
+				if !dup {
+					others = append(others, k)
+				}
+			}
+		}
+		for _, n := range []int{5, 8, 16, 17, 33} {
+			var pre []cbSpec
+			for i := 0; i < n; i++ {
+				pre = append(pre, cbSpec{others[i%len(others)], nil})
+			}
+			resolveAll(res, o, v, append(append([]cbSpec(nil), pre...), cbSpec{v, errA}, cbSpec{v, nil}), fmt.Sprintf("long%d-own-last", n))
+			resolveAll(res, o, v, pre, fmt.Sprintf("long%d-no-own", n))
+			mid := append(append(append([]cbSpec(nil), pre[:n/2]...), cbSpec{v, nil}), pre[n/2:]...)
+			resolveAll(res, o, v, append(mid, cbSpec{v, errA}), fmt.Sprintf("long%d-own-in-the-middle", n))
+		}
 		if len(res.Samples) < 3 && len(alpha) >= 5 {
 			var s []string
 			for _, a := range alpha {
@@ -578,7 +607,7 @@ func C14(tier string) int {
 	}
 
 	res.Extra["types"] = len(keys)
-	res.Rule = fmt.Sprintf("(1) all %d x %d (value type, callback type) pairs for JSONResolver, TypeResolver and TypePredicatedResolver (predicate outcomes (true,nil),(false,nil),(false,err),(true,err); and a passing own-type predicate in front of a delegate that has no callback for the type); (1c) one JSONResolver / TypeResolver value reused for a sequence of 7 values of different types; (2) for every value type all callback lists of length 0..%d over {own, own returning an error, own returning ErrNoCallbackMatch, a parent, a child, a sibling, a similarly named foreign type, a foreign type}; (3) all 'type' arrays of length 1..4 over {Note, Person, Emoji, an unknown name, an unknown prefixed name} x 6 callback sets (callbacks returning nil or one of the library's own unmatched sentinels, which must come back unchanged with nothing further invoked), with ToType as cross-check; (3a) 12 'type' members that name no type (empty array, arrays of non-strings, number, null, object, boolean, empty string, wrong case): nothing invoked, unmatched error; (3b) every type written under 12 @context / type spellings (own vocabulary URI, the same with the other of http / https, in a list, aliased {URI: alias} alone / in a list / after another alias map / with a type array, also one whose other entries - before, after, around it - name no known type) through JSONResolver and ToType; (4) 13 wrong constructor shapes x 3 constructors; callbacks are manufactured with reflect.MakeFunc from the ontology-derived binding table; oracle: exactly the first own-type callback is invoked and its error returned by identity, else nothing is invoked and IsUnmatchedErr holds", len(keys), len(keys), maxLen)
+	res.Rule = fmt.Sprintf("(1) all %d x %d (value type, callback type) pairs for JSONResolver, TypeResolver and TypePredicatedResolver (predicate outcomes (true,nil),(false,nil),(false,err),(true,err); and a passing own-type predicate in front of a delegate that has no callback for the type); (1c) one JSONResolver / TypeResolver value reused for a sequence of 7 values of different types; (2) for every value type all callback lists of length 0..%d over {own, own returning an error, own returning ErrNoCallbackMatch, a parent, a child, a sibling, a similarly named foreign type, a foreign type}, and registration lists of 5, 8, 16, 17 and 33 callbacks for other types with the own-type callbacks last / in the middle / absent; (3) all 'type' arrays of length 1..4 over {Note, Person, Emoji, an unknown name, an unknown prefixed name} x 6 callback sets (callbacks returning nil or one of the library's own unmatched sentinels, which must come back unchanged with nothing further invoked), with ToType as cross-check; (3a) 12 'type' members that name no type (empty array, arrays of non-strings, number, null, object, boolean, empty string, wrong case): nothing invoked, unmatched error; (3b) every type written under 12 @context / type spellings (own vocabulary URI, the same with the other of http / https, in a list, aliased {URI: alias} alone / in a list / after another alias map / with a type array, also one whose other entries - before, after, around it - name no known type) through JSONResolver and ToType; (4) 13 wrong constructor shapes x 3 constructors; callbacks are manufactured with reflect.MakeFunc from the ontology-derived binding table; oracle: exactly the first own-type callback is invoked and its error returned by identity, else nothing is invoked and IsUnmatchedErr holds", len(keys), len(keys), maxLen)
 	res.Assumptions = []string{"for a multi-valued 'type' the value's own type is the first entry that names a known type (ToType is required to agree)"}
 	return res.Finish()
 }
